@@ -47,6 +47,10 @@ CHECKS = {
          'exact integer predicates; complete for all vertex lists of length 0..4 on a 4x4 grid x 81 query points (thorough: +5-vertex '
          'and 5x5), sampled beyond that',
          'trusts the 60-line integer oracle (oracle_geom.cpp, no gdstk headers); coordinates restricted to exactly representable dyadic values', '7/C14'),
+ 'C15': ('exploration', 'reference-semantics monitor: analytic curve evaluation with tracked curve state (end point, last control, end tangent) vs the vertices appended by every call, under ASan+UBSan',
+         'per section: finite vertices, requested end point, every vertex located on the exact section with non-decreasing parameter, deviation <= 5 tolerances for arcs and '
+         'non-doubling-back polynomial sections, fitted circle/tangent for turns, pass-through for interpolations; primitives against their exact outlines',
+         'analytic oracle in py/c15.py; smooth/turn only generated after sections that define the needed state; interpolation constraints never exactly opposite to a chord', '7/C15'),
  'C16': ('exploration', 'history + executable model: abstract cell graph updated per documented operation semantics, compared with the real graph after every step, under ASan+UBSan',
          'after each of 5-24 edit operations the type and target identity of every reference, library membership, top-level set, dependency sets and tags in use '
          'must equal the model; content compared between start and end',
